@@ -674,6 +674,7 @@ def make_witness(ctx, c, ob):
     # native replay stubs those callees with exactly these values
     w["choices"] = [vals.get(n, 0) for n in getattr(ctx, "choice_names", [])]
     w["choices"] = [int(c) if not isinstance(c, bool) and c is not None else bool(c) for c in w["choices"]]
+    w["handler_outcomes"] = [[t, k] for t, k in ctx.ghost.get("outcomes", [])]
     w["stubs"] = []
     for label, rname, shape in getattr(ctx, "summary_returns", []):
         if rname is None:
